@@ -17,6 +17,7 @@ the check is wrong (then the check is corrected; DESIGN.md 11.5).
 Writes /verif/controls/<ID>-n<i>/{patch.diff, meta.json[, stress_test.go]}.
 """
 import json, os, shutil, subprocess, sys, glob, time
+V = os.path.dirname(os.path.dirname(os.path.abspath(__file__)))  # the framework directory this tool belongs to (/verif, or a snapshot of it)
 from concurrent.futures import ThreadPoolExecutor
 
 ENV = dict(os.environ, GOFLAGS="-mod=mod", GOPROXY="off", GOSUMDB="off", GOTOOLCHAIN="local")
@@ -39,7 +40,7 @@ def run_check(pid, name, patch, tier, base="HEAD"):
         return {"exit": None, "error": "does not apply to /repo HEAD: " + out[-300:]}
     try:
         t0 = time.time()
-        rc, out = sh(f"VERIF_REPO_DIR={cw} VERIF_OUT_DIR={co} ./check {pid} {tier}", cwd="/verif", timeout=7200)
+        rc, out = sh(f"VERIF_REPO_DIR={cw} VERIF_OUT_DIR={co} ./check {pid} {tier}", cwd=V, timeout=7200)
         keep = None
         if rc == 1:  # keep the replay files for the post-mortem
             keep = f"/tmp/ctl-{name}.replays"
@@ -59,7 +60,7 @@ def evaluate(pid, i, tier):
     patch = f"{src}/patch{i}.diff"
     meta = json.load(open(f"{src}/meta{i}.json"))
     name = f"{pid}-n{i}"
-    dest = f"/verif/controls/{name}"
+    dest = f"{V}/controls/{name}"
     os.makedirs(dest, exist_ok=True)
     wt = f"/tmp/ctlv-{name}"
     sh(f"git -C /repo worktree remove --force {wt}")
@@ -117,7 +118,7 @@ def regress(args):
             j = int(next(it))
         else:
             filt.append(a)
-    dirs = sorted(d for d in glob.glob("/verif/controls/C*") if os.path.isdir(d))
+    dirs = sorted(d for d in glob.glob(V + "/controls/C*") if os.path.isdir(d))
     if filt:
         dirs = [d for d in dirs if any(f in os.path.basename(d) for f in filt)]
     def one(d):
@@ -136,7 +137,7 @@ def regress(args):
             print(name, res[name], flush=True)
     json.dump({"head": subprocess.run("git -C /repo rev-parse --short HEAD", shell=True, capture_output=True, text=True).stdout.strip(),
                "silent": sum(1 for v in res.values() if v["exit"] == 0), "total": len(res), "results": res},
-              open("/verif/controls/REGRESSION.json", "w"), indent=1)
+              open(V + "/controls/REGRESSION.json", "w"), indent=1)
     print("silent", sum(1 for v in res.values() if v["exit"] == 0), "of", len(res))
 
 if sys.argv[1] == "--regress":
